@@ -7,6 +7,7 @@
 //@harness c07_rotate_b0_c5 unwind=14 strength=bounded bound="base=0,count=5; same" timeout=2400 body=body_b0_c5 tier=thorough
 //@harness c07_rotate_b0_c2 unwind=14 strength=bounded bound="base=0,count=2; same" timeout=2400 body=body_b0_c2 tier=thorough
 //@harness c07_rotate_b3_c1 unwind=14 strength=bounded bound="base=3,count=1; same" timeout=2400 body=body_b3_c1 tier=thorough
+//@harness c07_rotate_dirs_b0_c3 unwind=14 strength=bounded bound="base=0,count=3; pattern {}/f (index in a directory component): a move into a directory that was not created is lost as rename(2)+move_file would lose it; every initial directory state" timeout=2400 body=body_dirs_b0_c3 tier=thorough
 //@harness c07_move_file strength=complete bound="all outcomes of rename {Ok, NotFound, other} x copy {Ok, Err} x remove_file {Ok, Err} (full outcome space), loop-free" timeout=600 replay=no
 //@harness c07_roll_count0 strength=bounded bound="count == 0, any base, remove_file succeeding (the error path builds an anyhow::Error, which CBMC does not finish)" timeout=600 replay=no
 // rotate(): the real function runs on a model directory. move_file and fs::create_dir_all are replaced by the model
@@ -86,6 +87,50 @@ mod __verif_c07 {
         }
         std::mem::forget(r);
     }
+    // ---- index in a directory component: pattern "{}/f"; a directory exists iff it was created or already held an archive
+    pub(crate) static mut DIRS: [bool; 10] = [false; 10];
+    fn dslot(p: &Path) -> usize {
+        let b = p.as_os_str().as_encoded_bytes();
+        if b.len() == 1 && b[0] == b'f' { 10 } else { assert!(b.len() == 3 && b[0] >= b'0' && b[0] <= b'9' && b[1] == b'/' && b[2] == b'f'); (b[0] - b'0') as usize }
+    }
+    pub(crate) fn model_move_dirs<P: AsRef<Path>, Q: AsRef<Path>>(src: P, dst: Q) -> io::Result<()> {
+        unsafe {
+            let s = dslot(src.as_ref()); let d = dslot(dst.as_ref());
+            if FS[s].is_none() { return Ok(()); }
+            // rename(2) into a missing directory fails with ENOENT, which move_file tolerates as "source missing"
+            if d < 10 && !DIRS[d] { return Ok(()); }
+            FS[d] = FS[s].take();
+            Ok(())
+        }
+    }
+    pub(crate) fn model_mkdir_dirs<P: AsRef<Path>>(p: P) -> io::Result<()> {
+        let b = p.as_ref().as_os_str().as_encoded_bytes();
+        if b.len() == 1 && b[0] >= b'0' && b[0] <= b'9' { unsafe { DIRS[(b[0] - b'0') as usize] = true; } }
+        Ok(())
+    }
+    pub(crate) fn rotate_dirs_body(src: &mut Src, base: u32, count: u32) {
+        let mut old: [Option<u8>; 12] = [None; 12];
+        let mut i = 0;
+        while i < 12 { let present = src.bool(); let c = src.u8(); if present && i != 11 { old[i] = Some(c); } i += 1; }
+        assume(old[10].is_some());
+        let mut dirs = [false; 10];
+        let mut i = 0; while i < 10 { dirs[i] = old[i].is_some(); i += 1; }
+        unsafe { FS = old; DIRS = dirs; }
+        let r = rotate("{}/f".to_owned(), Compression::None, base, count, PathBuf::from("f"));
+        let new = unsafe { FS };
+        let b = base as usize; let c = count as usize;
+        __verif_cover!("an archive must move into a directory that does not exist yet", old[b].is_some() && old[b + 1].is_none());
+        __verif_ob!("rotate#post Ok", r.is_ok());
+        __verif_ob!("rotate#post the rolled file is gone from its original path", new[10].is_none());
+        __verif_ob!("rotate#post index base holds the file just rolled", new[b] == old[10]);
+        let mut j = 1usize;
+        while j < c { if old[b + j - 1].is_some() { __verif_ob!("rotate#post index base+j holds what base+j-1 held (directory created on demand)", new[b + j] == old[b + j - 1]); } j += 1; }
+        let mut k = 0usize;
+        while k < 10 { if k < b || k >= b + c { __verif_ob!("rotate#frame nothing outside the window is touched", new[k] == old[k]); } k += 1; }
+        std::mem::forget(r);
+    }
+    pub(crate) fn body_dirs_b0_c3(s: &mut Src) { rotate_dirs_body(s, 0, 3) }
+
     pub(crate) fn body_b0_c1(s: &mut Src) { rotate_body(s, 0, 1) }
     pub(crate) fn body_b0_c2(s: &mut Src) { rotate_body(s, 0, 2) }
     pub(crate) fn body_b0_c3(s: &mut Src) { rotate_body(s, 0, 3) }
@@ -118,6 +163,11 @@ mod __verif_c07_k {
         #[kani::stub(std::fs::create_dir_all, model_mkdir)]
         fn $name() { let mut src = Src::new(); $body(&mut src); }
     } }
+    #[kani::proof]
+    #[kani::unwind(14)]
+    #[kani::stub(move_file, model_move_dirs)]
+    #[kani::stub(std::fs::create_dir_all, model_mkdir_dirs)]
+    fn c07_rotate_dirs_b0_c3() { let mut src = Src::new(); body_dirs_b0_c3(&mut src); }
     rot!(c07_rotate_b0_c1, body_b0_c1);
     rot!(c07_rotate_b0_c2, body_b0_c2);
     rot!(c07_rotate_b0_c3, body_b0_c3);
